@@ -13,3 +13,6 @@ Check Props.C12.C12_termination_unparks :
 Check Props.C12.C12_queue_bound :
   forall tr s a x n, run init tr = Acc s -> actors s a = Some x -> m_bound (a_mb x) = Some n ->
     length (m_queue (a_mb x)) <= n + length (m_parked (a_mb x)) /\ sub (powners (a_mb x)) (qids (a_mb x)).
+
+From Hannibal Require Chk.C03 Props.C03.
+Check Props.C03.C03_lifecycle : forall tr, accepts tr = true -> Chk.C03.chk_C03 tr = true.
